@@ -1,17 +1,19 @@
 #!/usr/bin/env python3
 import json,sys
 pid=sys.argv[1]
+wt=sys.argv[2] if len(sys.argv)>2 else pid
+avoid=sys.argv[3] if len(sys.argv)>3 else ''
 for l in open('/verif/properties.jsonl'):
     p=json.loads(l)
     if p['id']==pid: break
-print(f"""You are testing a verification framework's blind spots. You have a scratch git worktree of the Go project elves/elvish at /tmp/seed/{pid} (work ONLY there; never touch /repo and never read anything under /verif). Offline sandbox, Go 1.23.5: always `export GOFLAGS=-mod=mod GOPROXY=off GOSUMDB=off GOTOOLCHAIN=local`.
+print(f"""You are testing a verification framework's blind spots. You have a scratch git worktree of the Go project elves/elvish at /tmp/seed/{wt} (work ONLY there; never touch /repo and never read anything under /verif). Offline sandbox, Go 1.23.5: always `export GOFLAGS=-mod=mod GOPROXY=off GOSUMDB=off GOTOOLCHAIN=local`.
 
 Semantic property that should hold of elvish:
   Title: {p['title']}
   Statement: {p['statement']}
   Code it is anchored in: {', '.join(p['anchors']['files'])}
 
-Task: make ONE realistic change to the elvish source in your worktree (non-test files only, a few lines, the kind of slip a developer could make in a refactoring) that BREAKS this property while the project still compiles and its whole existing test suite still passes. The breakage must need something specific to manifest - a particular interleaving, a fault or interrupt at a particular point, a multi-step sequence of operations, an unusual input, or two cooperating sites that each look fine alone - not something ordinary use would expose at once. Then write a demonstration (a Go test file or small Go program inside the worktree, e.g. pkg/.../zz_seed_demo_test.go) that FAILS with your change and PASSES without it (verify both by reverting your edit temporarily with `git diff > /tmp/seed/<id>.patch; git apply -R /tmp/seed/<id>.patch; ...; git apply /tmp/seed/<id>.patch` - do NOT use git stash: it is shared between worktrees). If the demonstration depends on scheduling, make it reliable (loops, many iterations, runtime.Gosched, or hooks you add only in the demo file), and say how often it fails.
+{avoid}Task: make ONE realistic change to the elvish source in your worktree (non-test files only, a few lines, the kind of slip a developer could make in a refactoring) that BREAKS this property while the project still compiles and its whole existing test suite still passes. The breakage must need something specific to manifest - a particular interleaving, a fault or interrupt at a particular point, a multi-step sequence of operations, an unusual input, or two cooperating sites that each look fine alone - not something ordinary use would expose at once. Then write a demonstration (a Go test file or small Go program inside the worktree, e.g. pkg/.../zz_seed_demo_test.go) that FAILS with your change and PASSES without it (verify both by reverting your edit temporarily with `git diff > /tmp/seed/<id>.patch; git apply -R /tmp/seed/<id>.patch; ...; git apply /tmp/seed/<id>.patch` - do NOT use git stash: it is shared between worktrees). If the demonstration depends on scheduling, make it reliable (loops, many iterations, runtime.Gosched, or hooks you add only in the demo file), and say how often it fails.
 
 Verify the existing tests: run at least the test packages that could be affected plus `go build ./...`, and finally `go test -count=1 ./... 2>&1 | grep -v '^ok\\|no test files' | tail` (tests known to be flaky under machine load, e.g. terminal-timing tests in pkg/edit, pkg/cli, pkg/shell, may be re-run individually). Keep your change and your demo file as UNCOMMITTED modifications in the worktree.
 
